@@ -200,6 +200,10 @@ func (c *scriptConn) Write(b []byte) (int, error) {
 		c.log.add(Ev{"ev": "conn.write", "bytes": ints(b), "err": 1})
 		return 0, errInjected
 	}
+	if c.fault == "cancelonwrite" && c.cancel != nil {
+		c.log.add(Ev{"ev": "cancel"})
+		c.cancel() // the caller gives up while the request is being written: before any read
+	}
 	if c.fault == "writestall" && !c.serial {
 		// the peer does not take the bytes: the write returns when the write deadline expires
 		c.log.add(Ev{"ev": "conn.write", "bytes": ints(b), "err": 1})
@@ -384,6 +388,10 @@ func (ec *exchClient) run(c *exchCase, timeoutMs int) []Ev {
 				panic(err)
 			}
 			ec.connected = true
+		}
+		if c.Fault == "precancel" {
+			lg.add(Ev{"ev": "cancel"})
+			cancel() // the context is already cancelled when the call is made
 		}
 		r.resp, r.err = cl.Do(ctx, req)
 	}()
